@@ -200,7 +200,7 @@ class Prims:
             if not cc.uses_cursor(m) and not cc.self_calls(m):
                 if writes and any(k == "elem" for k, _ in writes) and len(ps) == 2:
                     self.bit_set = m
-                elif reads and not writes and len(ps) == 1 and any(isinstance(n, ast.Raise) for n in ast.walk(m.node)):
+                elif reads and not writes and len(ps) == 1:
                     self.bit_get = m
         names = {cc.C: "cursor"}
         self.byte_prims: Dict[str, Tuple[str, int]] = {}
@@ -458,27 +458,59 @@ class Prims:
 
 
     def check_composites(self):
-        """Methods other than the bit primitives must not touch the store directly."""
+        """Methods other than the bit primitives that touch the store directly.
+
+        * not a word primitive (no width parameter measured by the cursor advance): byte-granular access;
+          a violation unless it is a whole-store reset (store rebound and cursor set to 0)
+        * a word primitive rewritten arithmetically: accepted as UNDECIDED if it uses the sub-byte part
+          of the cursor; definite violations: sub-byte part unused, constant read window too small."""
         cc = self.cc
         for name, m in cc.ci.methods.items():
             if name == "__init__" or m in (self.bit_set, self.bit_get):
                 continue
             writes = cc.store_writes(m)
             reads = cc.store_reads(m)
+            if not writes and not reads:
+                continue
             cw = cc.cursor_writes(m)
+            is_word = name in self.word_prims
+            sub_used = any(bit_index_of(x) is not None and cc.C in norm(x) for x in ast.walk(m.node))
+            resets0 = any(isinstance(n, ast.Assign) and isinstance(n.value, ast.Constant) and n.value.value == 0 for n in cw)
             for kind, n in writes:
-                if not cw:
+                if kind == "whole" and isinstance(n, ast.Assign) and resets0:
+                    self.note("ok", "cursor", m, norm(n, 60), "whole-store reset together with cursor = 0")
+                elif is_word and sub_used:
+                    if kind == "append" and isinstance(n, ast.Call) and n.args and isinstance(n.args[0], ast.Constant) and n.args[0].value == 0:
+                        continue
+                    self.note("undecided", "cursor", m, norm(n, 60), "word primitive writes the store arithmetically (not through the per-bit primitive); placement not decided")
+                elif not cw:
                     self.note("violation", "cursor", m, norm(n, 60), "store is written without advancing the bit cursor: a following field overwrites/precedes this data")
                 else:
                     self.note("violation", "cursor", m, norm(n, 60), "byte-granular store write ignores the sub-byte part of the bit cursor (data lands on a byte boundary, not at the cursor)")
             for r in reads:
-                idx = r.slice
-                defs = Defs(m.node)
-                sub_used = any(bit_index_of(x) is not None and cc.C in norm(x) for x in ast.walk(m.node))
                 if not sub_used:
                     self.note("violation", "cursor", m, norm(r, 60), "byte-granular store read drops the sub-byte part of the bit cursor (cursor div 8 used, cursor mod 8 not)")
-                else:
-                    self.note("undecided", "cursor", m, norm(r, 60), "direct store read outside the bit primitive (word extracted arithmetically)")
+                    continue
+                if isinstance(r.slice, ast.Slice) and r.slice.lower is not None and r.slice.upper is not None and is_word:
+                    names = {cc.C: "cursor"}
+                    defs = Defs(m.node)
+
+                    def res(e):
+                        if isinstance(e, ast.Name) and len(defs.values(e.id)) == 1 and defs.values(e.id)[0][1] is not None:
+                            return defs.values(e.id)[0][1]
+                        return e
+                    lo, hi = lin(r.slice.lower, {}), lin(r.slice.upper, {})
+                    if lo is not None and hi is not None:
+                        d = dict(hi)
+                        for k, v in lo.items():
+                            d[k] = d.get(k, 0) - v
+                        d = {k: v for k, v in d.items() if v != 0}
+                        if set(d) <= {""}:
+                            c = d.get("", 0)
+                            if c * 8 < 64 + 7:
+                                self.note("violation", "cursor", m, norm(r, 60), "fixed %d-byte read window cannot hold a word of up to 64 bits at a non-zero bit offset (needs up to 9 bytes): the top bits are lost" % c)
+                                continue
+                self.note("undecided", "cursor", m, norm(r, 60), "direct store read outside the bit primitive (word extracted arithmetically)")
 
 
 # ---------------------------------------------------------------- effect grammars
